@@ -24,6 +24,16 @@ type scn struct {
 	opt   ch.Options
 	mk    func(c *Conn, fa *failAt) (ch.Query, []Step)
 	fails bool // the query fails on the client side by construction
+	// prelude: the client has a history when the scenario starts — an earlier query on the
+	// same client that ended with a server exception ("exception") or well ("ok")
+	prelude string
+}
+
+// withHistory derives the scenario that runs s on a client with a history.
+func withHistory(s scn, pre string) scn {
+	s.name += "-after-" + pre
+	s.prelude = pre
+	return s
 }
 
 func u64col(name string, v ...uint64) any {
@@ -202,6 +212,9 @@ func body04(s scn, f fault, probe bool) Body {
 			return Outcome{Key: "C04/" + s.name + "/handshake-failed", Detail: err.Error()}
 		}
 		defer vsched.Quiet(func() { _ = c.C.Close() })
+		if msg := c.Prelude(s.prelude); msg != "" {
+			return Outcome{Key: "C04/" + s.name + "/prelude-failed", Detail: msg}
+		}
 		fa := &failAt{}
 		var inj *Inject
 		switch f.kind {
@@ -294,6 +307,9 @@ func measure(s scn) (serverBytes, clientBytes, callbacks, termGate int, broken *
 		if err != nil {
 			return Outcome{Key: "connect"}
 		}
+		if msg := c.Prelude(s.prelude); msg != "" {
+			return Outcome{Key: "prelude-failed", Detail: msg}
+		}
 		fa = &failAt{}
 		q, steps := s.mk(c, fa)
 		for i, st := range steps {
@@ -321,9 +337,18 @@ func measure(s scn) (serverBytes, clientBytes, callbacks, termGate int, broken *
 
 // C04 — a failed query leaves the client closed or exactly at a packet boundary.
 func C04(c *vk.Ctx) {
-	c.Rule("scenarios {insert, streamed insert, LZ4/ZSTD inserts, insert whose input columns disagree on the row count (the sender fails inside encodeBlock), select, LZ4 select, select with logs/profile events} x faults {server exception injected at every gate of the peer script, server stream cut (EOF and reset) after byte k, client write failing after byte k, callback j failing, unknown packet code / well-formed unexpected packet / undecodable block at every gate, the double faults caller-cancels + server exception and failing write + server exception at every gate, and a server exception (chain of two) that does not arrive whole: stream cut or server silent after every byte of it (quick: every 2nd / 5th byte), or with an undecodable body, at every gate} x all schedules of the sender, receiver, cancel-watch and peer threads (plus clock steps) up to the stated deviation bound; after Do returns the probe checks closed-or-boundary. distinct_nontrivial = executions (each is a distinct (scenario, fault, schedule) triple).")
+	c.Rule("scenarios {insert, streamed insert, LZ4/ZSTD inserts, insert whose input columns disagree on the row count (the sender fails inside encodeBlock), select, LZ4 select, select with logs/profile events, and insert / select on a client whose previous query ended with a server exception (thorough: or ended well)} x faults {server exception injected at every gate of the peer script, server stream cut (EOF and reset) after byte k, client write failing after byte k, callback j failing, unknown packet code / well-formed unexpected packet / undecodable block at every gate, the double faults caller-cancels + server exception and failing write + server exception at every gate, and a server exception (chain of two) that does not arrive whole: stream cut or server silent after every byte of it (quick: every 2nd / 5th byte), or with an undecodable body, at every gate} x all schedules of the sender, receiver, cancel-watch and peer threads (plus clock steps) up to the stated deviation bound; after Do returns the probe checks closed-or-boundary. distinct_nontrivial = executions (each is a distinct (scenario, fault, schedule) triple).")
 	quick := c.Quick()
 	scs := append(scenarios(), badRows())
+	// the same on a client that already ran a query (non-initial client state)
+	for _, s := range scenarios() {
+		if s.name == "insert" || s.name == "select" {
+			scs = append(scs, withHistory(s, "exception"))
+			if !quick {
+				scs = append(scs, withHistory(s, "ok"))
+			}
+		}
+	}
 	type job struct {
 		s     scn
 		f     fault
